@@ -22,6 +22,32 @@ from sa.model import AnalysisError  # noqa: E402
 from sa.report import Ctx, finish  # noqa: E402
 
 
+def thorough_selftest(ctx: Ctx, prop: str) -> None:
+    """Thorough tier: after deciding the property on the current tree, re-run this property's
+    rules on every variant of the self-test corpus (textual mutants, benign twins and the
+    independently seeded patches) applied to scratch copies of the CURRENT tree: each breaking
+    variant must be reported, each benign twin must stay silent.  A rule that has gone blind or
+    trigger-happy makes the run ANALYSIS-ERROR (exit 2): the verdict on the tree is then not to
+    be believed.  A variant whose anchor text no longer exists in the tree (STALE) is listed in
+    the evidence and does not fail the run."""
+    import subprocess
+    runpy = HERE.parent / 'selftest' / 'run.py'
+    env = dict(os.environ, VERIF_NO_SELFTEST='1', VERIF_TIER='quick')
+    r = subprocess.run([sys.executable, str(runpy), '--only', prop, '--json'], env=env,
+                       capture_output=True, text=True, cwd=str(HERE.parent))
+    try:
+        res = json.loads(r.stdout.strip().splitlines()[-1])
+    except Exception:       # noqa: BLE001
+        raise AnalysisError('self-test corpus could not be run: ' + (r.stdout + r.stderr)[-400:])
+    ctx.coverage_extra['selftest'] = res
+    bad = [x for x in res['results'] if x['status'] not in ('OK', 'STALE')]
+    print(f'[{prop}] thorough: self-test corpus {res["as_expected"]}/{res["variants"]} variants '
+          f'as expected ({res["must_fire"]} must-fire incl. {res["seeded"]} seeded patches, '
+          f'{res["benign"]} benign twins, {res["stale"]} stale)')
+    if bad:
+        raise AnalysisError('self-test corpus: ' + ', '.join(f'{x["id"]}={x["status"]}' for x in bad))
+
+
 def main(argv=None) -> int:
     ap = argparse.ArgumentParser()
     ap.add_argument('prop')
@@ -47,6 +73,8 @@ def main(argv=None) -> int:
         mod.run(ctx)
         if not ctx.obligations:
             raise AnalysisError('no obligation was generated (rules matched nothing)')
+        if args.tier == 'thorough' and not os.environ.get('VERIF_NO_SELFTEST'):
+            thorough_selftest(ctx, prop)
         return finish(ctx, getattr(mod, 'LEVEL', 'other'), mod.EXPLANATION, mod.RULE_TEXT)
     except AnalysisError as e:
         print(f'ANALYSIS-ERROR property={prop}: {e}')
